@@ -49,7 +49,7 @@ def run(ctx):
     obs = ctx.obs
     obs.extra['meta'] = META
     contracts.attach_all(obs, only={'ravel_dimensions', 'make_polygons_with_holes'})
-    total = ctx.n(250, 8000)
+    total = ctx.n(500, 10000)
     for case, rng in ctx.cases(total):
         conv = CONVENTIONS[case % len(CONVENTIONS)]
         spec = {'case': case, 'convention': conv}
